@@ -137,6 +137,7 @@ def run_unit(unit_path, workdir, canary=False, rlimit=None, extra_mutation=None,
            '--triggers-mode', 'silent', '--no-report-long-running']
     if not canary:
         cmd += ['--log', 'air-final', '--log-dir', logdir]
+    rlimit = rlimit or info.get('rlimit')
     if rlimit:
         cmd += ['--rlimit', str(rlimit)]
     if threads:
